@@ -191,6 +191,11 @@ func (e *BinaryOpExpr) checkWithCompares(ctx *CheckCtx) error {
 
 func (e *BinaryOpExpr) checkWithIn(ctx *CheckCtx) error {
 	ltype := e.Left.ReturnType()
+	switch ltype {
+	case TSTR, TNUMBER:
+	default:
+		return NewSyntaxError(e.Left.GetPos(), "in operator only support string and number type")
+	}
 	switch r := e.Right.(type) {
 	case *ListExpr:
 		for _, expr := range r.List {
